@@ -71,28 +71,12 @@ theorem closed_namespace_import (h : trace w entries fuel = some s) (m name : Na
     simp only [Served, hns] at h3
     exact ⟨h3.1, C11.done_of_sched w entries fuel s h _ h3.2⟩
 
-/-- the star re-export chosen for a name is one of the module's, and the name is found through it;
-none is chosen only when no star re-export of the module provides the name (or for `default`) -/
-theorem starProvider_spec (md : Mod) (n : Nat) :
-    (∀ x, starProvider w md n = some x → x ∈ md.stars ∧ resolves w x n = true ∧ n ≠ 0) ∧
-    (starProvider w md n = none → n ≠ 0 → ∀ x ∈ md.stars, resolves w x n = false) := by
-  unfold starProvider
-  constructor
-  · intro x hx
-    split at hx
-    · cases hx
-    · rename_i hn
-      exact ⟨List.mem_of_find?_eq_some hx, by simpa using List.find?_some hx, hn⟩
-  · intro hnone hn x hx
-    simp only [hn, if_false] at hnone
-    have := List.find?_eq_none.mp hnone x hx
-    simpa using this
-
 /-- **the exporting module's emitted counterpart still exports the name**: a module that has been
 asked for a name keeps whatever its source uses to export it — the declaration itself, the local
 export specifier (and what it names), the named re-export (and the next module is asked in turn),
-or, failing all that, the first star re-export through which the name is found (its target being
-asked in turn); when none provides it, every star re-export is kept -/
+or, failing all that, the `export *` of every module on the path along which *this* module has the
+name (the module at the end of the path being asked in turn); when there is no such path, every
+star re-export is kept -/
 theorem request_served (h : trace w entries fuel = some s) (m n : Nat) (hq : Task.reqName m n ∈ s.done) :
     m ∈ s.modules ∧
     (∀ d, ownExport (w.mod m) n = some d → findDecl (w.mod m) d.name = some d → (m, d.name) ∈ s.decls) ∧
@@ -101,8 +85,8 @@ theorem request_served (h : trace w entries fuel = some s) (m n : Nat) (hq : Tas
     (ownExport (w.mod m) n = none → findLocalExport (w.mod m) n = none → ∀ p, findFrom (w.mod m) n = some p →
         (m, n) ∈ s.exportFrom ∧ Task.reqName p.2.1 p.2.2 ∈ s.done) ∧
     (ownExport (w.mod m) n = none → findLocalExport (w.mod m) n = none → findFrom (w.mod m) n = none →
-        (∀ x, starProvider w (w.mod m) n = some x → (m, x) ∈ s.stars ∧ Task.reqName x n ∈ s.done) ∧
-        (starProvider w (w.mod m) n = none → ∀ x ∈ (w.mod m).stars, (m, x) ∈ s.stars)) := by
+        (∀ edges d, findPath w m n = some (edges, d) → (∀ e ∈ edges, e ∈ s.stars) ∧ Task.reqName d n ∈ s.done) ∧
+        (findPath w m n = none → ∀ x ∈ (w.mod m).stars, (m, x) ∈ s.stars)) := by
   have hs := C11.served_of_done w entries fuel s h _ hq
   have dn := C11.done_of_sched w entries fuel s h
   refine ⟨hs.1, ?_, ?_, ?_, ?_⟩
@@ -122,12 +106,39 @@ theorem request_served (h : trace w entries fuel = some s) (m n : Nat) (hq : Tas
     have := hs.2
     simp only [hd, hp, hq'] at this
     constructor
-    · intro x hx
+    · intro edges d hx
       simp only [hx] at this
       exact ⟨this.1, dn _ this.2⟩
     · intro hx
       simp only [hx] at this
       exact this
+
+/-- **a name that a module has through `export *` is still exported by the emitted modules, all the
+way**: when a module that was asked for a name has it along a path of `export *` declarations,
+that path is a chain of star re-exports of the package from this module to one that has the name
+as its own; every `export *` on it is retained, and the module at its end was asked for the name
+(so, by `request_served` there, it keeps the declaration, export specifier or named re-export).
+Cycles of `export *` cannot lead the path back: it is resolved from the asking module
+(finding F34, repaired in /repo) -/
+theorem star_path_retained (h : trace w entries fuel = some s) (m n : Nat) (hq : Task.reqName m n ∈ s.done)
+    (hd : ownExport (w.mod m) n = none) (hp : findLocalExport (w.mod m) n = none) (hf : findFrom (w.mod m) n = none)
+    (edges : List (Nat × Nat)) (d : Nat) (hpath : findPath w m n = some (edges, d)) :
+    IsStarPath w m edges d ∧ ownsName (w.mod d) n = true ∧ (∀ e ∈ edges, e ∈ s.stars) ∧
+      Task.reqName d n ∈ s.done ∧ d ∈ s.modules := by
+  obtain ⟨_, hpth, hown⟩ := findPath_spec w m n edges d hpath
+  obtain ⟨he, hdn⟩ := ((request_served w entries fuel s h m n hq).2.2.2.2 hd hp hf).1 edges d hpath
+  exact ⟨hpth, hown, he, hdn, (request_served w entries fuel s h d n hdn).1⟩
+
+/-- the cycle of finding F34: `a` re-exports `b`, `b` re-exports `a` and `c`, `c` declares the name;
+the path from `a` is a → b → c (the choice made before the repair, `starProvider`, sent `b` back to `a`) -/
+example :
+    let w : World := [
+      { decls := [], imports := [], exportFrom := [], stars := [1], exportLocal := [] },
+      { decls := [], imports := [], exportFrom := [], stars := [0, 2], exportLocal := [] },
+      { decls := [{ name := 5, exported := true, isDefault := false, refs := [] }], imports := [], exportFrom := [],
+        stars := [], exportLocal := [] }]
+    findPath w 0 5 = some ([(0, 1), (1, 2)], 2) ∧ starProvider w (w.mod 1) 5 = some 0 := by
+  decide
 
 /-- a retained local export specifier still names something retained -/
 theorem local_served (h : trace w entries fuel = some s) (m l : Nat) (hq : Task.local m l ∈ s.done) (d : Decl)
